@@ -42,3 +42,7 @@ impl AtomicDuration {
         }
     }
 }
+
+#[cfg(kani)]
+#[path = "/verif/harness/may/sync_atomic_dur.rs"]
+mod verif_kani;
